@@ -29,7 +29,7 @@ Definition err_code (e : err) : Z * Z :=
   | EDataAfterTrailers => (5, 0) | EHeadersAfterTrailers => (6, 0) | EUnexpectedFrame => (7, 0)
   | EReserved t => (8, t) | ESettingsSize => (9, 0) | ESettingsDup i => (10, i)
   | ESettingsBool i => (11, i) | EGoawayLen => (12, 0) | EUnexpectedEOF => (13, 0)
-  | ETrailerTooLarge => (14, 0) | EFuel => (98, 0)
+  | ETrailerTooLarge => (14, 0) | ETruncated => (15, 0) | EFuel => (98, 0)
   end.
 Definition oerr_code (e : option err) : Z * Z := match e with None => (0, 0) | Some e => err_code e end.
 Definition fin_of (p : Z * Z) : err := if fst p =? 2 then EStream (snd p) else EEOF.
